@@ -7,7 +7,11 @@ var rtModule = Module{Dir: "runtime", Patterns: []string{"./internal/runtime"}}
 func init() {
 	PropConfigs["C03"] = &PropConfig{ID: "C03", Modules: []Module{rtModule}, Specs: []string{"common.smt2"}, Extra: c03CompilerGoals}
 	PropConfigs["C11"] = &PropConfig{ID: "C11", Modules: []Module{{Dir: "runtime", Patterns: []string{"./internal/lib/runtime"}}}, Specs: []string{"common.smt2"}}
-	PropConfigs["C06"] = &PropConfig{ID: "C06", Modules: []Module{rtModule}, Specs: []string{"common.smt2"}}
+	PropConfigs["C06"] = &PropConfig{ID: "C06", Modules: []Module{rtModule}, Specs: []string{"common.smt2"}, Post: c06MapBounded,
+		Undecided: []string{
+			"the finite-map refinement of mapassign/mapaccess/mapdelete/mapclear/evacuate/mapiternext beyond the stated bound (bounded stand-in only: uint64 keys and values, no indirect keys/elems, no NaN keys)",
+			"typehash/structequal/arrayequal recursion over type descriptors; mapclone/keys/values; reflect entry points",
+		}}
 	PropConfigs["C07"] = &PropConfig{ID: "C07", Modules: []Module{rtModule}, Specs: []string{"common.smt2"},
 		Post: func(ck *Checker, rep *Report, opts *Options) {
 			if opts.OnlyFn != "" {
